@@ -87,6 +87,9 @@ pub enum Act {
     BadSwap { user: String, dir: u8 },
     /// somebody bank-sends the pool coins of a look-alike denom (asset `idx`'s denom in upper case)
     SendLookalike { idx: u8 },
+    /// a swap offering a bank coin whose denom is spelled exactly like the contract address of the pool's
+    /// cw20 asset `idx` (attached in full): it is not an asset of the pool
+    SwapAddrCoin { user: String, idx: u8 },
     Swap { user: String, dir: u8, amount: u128, loose: bool },
     Collect { user: String },
     /// through fee_collector::CollectFees{Contracts}
@@ -167,6 +170,12 @@ impl PairScn {
         for a in [&a0, &a1] {
             if let AssetInfo::NativeToken { denom } = a {
                 w.mint_native(MALLORY, 1_000_000_000, &denom.to_uppercase());
+            }
+        }
+        // bank coins spelled like the address of a cw20 pool asset
+        for a in [&a0, &a1] {
+            if let AssetInfo::Token { contract_addr } = a {
+                w.mint_native(MALLORY, BIG_FUND, contract_addr);
             }
         }
         let pair = create_pair(w, &hub, [a0, a1], r.fees.pool(), self.pair_type()).expect("create pair");
@@ -341,6 +350,11 @@ impl Scenario for PairScn {
             for kind in ["direct_coin", "forged_receive"] {
                 v.push(Act::BadWithdraw { user: MALLORY.to_string(), kind: kind.to_string() });
             }
+            for idx in 0..2u8 {
+                if matches!(h.pair.assets[idx as usize], AssetInfo::Token { .. }) {
+                    v.push(Act::SwapAddrCoin { user: MALLORY.to_string(), idx });
+                }
+            }
             if h.pair.assets.iter().any(|a| matches!(a, AssetInfo::NativeToken { .. })) {
                 v.push(Act::BadProvide { user: MALLORY.to_string(), kind: "native_labelled_as_token".to_string() });
                 v.push(Act::BadProvide { user: MALLORY.to_string(), kind: "underfunded_native".to_string() });
@@ -456,6 +470,23 @@ impl Scenario for PairScn {
                 if let AssetInfo::NativeToken { denom } = &p.assets[*idx as usize] {
                     let r = w.exec_cosmos(MALLORY, cosmwasm_std::BankMsg::Send { to_address: p.addr.clone(), amount: vec![cosmwasm_std::coin(10_001, denom.to_uppercase())] }.into());
                     cx.count(if r.is_ok() { "lookalike:sent" } else { "lookalike:failed" });
+                }
+            }
+            Act::SwapAddrCoin { user, idx } => {
+                let (res, _) = pre.unwrap();
+                let i = *idx as usize;
+                let amt = (res[i] / 10).max(2);
+                let ub = [info_balance(w, &p.assets[0], user), info_balance(w, &p.assets[1], user)];
+                match addr_coin_swap(w, p, user, i, amt) {
+                    Some(Ok(_)) => {
+                        cx.count("addr_coin_swap:accepted");
+                        let ua = [info_balance(w, &p.assets[0], user), info_balance(w, &p.assets[1], user)];
+                        cx.check("swap.user_deltas", ua[0] <= ub[0] && ua[1] <= ub[1], || {
+                            format!("a swap offering {} bank coins spelled like the address of the pool's cw20 asset {} (not a pool asset) was accepted and paid the sender: pool-asset balances {:?} -> {:?}", amt, i, ub, ua)
+                        });
+                    }
+                    Some(Err(_)) => cx.count("addr_coin_swap:rejected"),
+                    None => {}
                 }
             }
             Act::BadSwap { user, dir } => {
@@ -867,6 +898,25 @@ impl PairScn {
             return;
         }
         let snap = w.kv_clone();
+        // an offer of a bank coin spelled like the address of the pool's cw20 asset: quote and execution must agree
+        // (both refuse it: it is not a pool asset)
+        for dir in 0..2usize {
+            if let AssetInfo::Token { contract_addr } = &p.assets[dir] {
+                let amt = (res[dir] / 10).max(2);
+                let sim: Result<SimulationResponse, String> = w.query(&p.addr, &PairQuery::Simulation { offer_asset: asset(&native(contract_addr), amt) });
+                let ex = addr_coin_swap(w, p, MALLORY, dir, amt).unwrap();
+                cx.count("probe:sim_vs_exec:addr_coin");
+                let same = match (&sim, &ex) {
+                    (Err(_), Err(_)) => true,
+                    (Ok(s), Ok(resp)) => attr_u128(resp, Some(&p.addr), "swap", "return_amount") == Some(s.return_amount.u128()) && attr_u128(resp, Some(&p.addr), "swap", "spread_amount") == Some(s.spread_amount.u128()),
+                    _ => false,
+                };
+                cx.check("sim_eq_exec.same_outcome", same, || {
+                    format!("offer of {} bank coins named like the cw20 asset {}: simulation {:?} but execution {:?}", amt, dir, sim, ex.as_ref().map(|r| (attr_u128(r, Some(&p.addr), "swap", "return_amount"), attr_u128(r, Some(&p.addr), "swap", "spread_amount"))).map_err(|e| e.msg().to_string()))
+                });
+                w.kv_restore(&snap);
+            }
+        }
         for dir in 0..2usize {
             let offer = &p.assets[dir];
             let ask = &p.assets[1 - dir];
@@ -986,6 +1036,21 @@ impl PairScn {
             }
         }
     }
+}
+
+/// ExecuteMsg::Swap offering `amount` bank coins whose denom is the contract address of the pair's cw20 asset `idx`
+/// (None when that asset is not a cw20 token)
+pub fn addr_coin_swap(w: &mut World, p: &PairH, user: &str, idx: usize, amount: u128) -> Option<crate::world::TxResult> {
+    let denom = match &p.assets[idx] {
+        AssetInfo::Token { contract_addr } => contract_addr.clone(),
+        _ => return None,
+    };
+    Some(w.exec(
+        user,
+        &p.addr,
+        &white_whale_std::pool_network::pair::ExecuteMsg::Swap { offer_asset: asset(&native(&denom), amount), belief_price: loose_belief(), max_spread: Some(Decimal::percent(50)), to: None },
+        &[cosmwasm_std::coin(amount, denom)],
+    ))
 }
 
 pub fn whole_token(r: &[u128; 2], dec: &[u8; 2]) -> bool {
